@@ -473,6 +473,7 @@ struct Dumper {
     fo["line"] = (int64_t)lineOf(F->getBeginLoc());
     fo["end_line"] = (int64_t)lineOf(F->getEndLoc());
     fo["ret"] = typeOf(F->getReturnType());
+    if (const auto* fpt = F->getType()->getAs<FunctionProtoType>()) { if (fpt->isNothrow()) fo["noexcept"] = true; }
     if (auto md = dyn_cast<CXXMethodDecl>(F)) {
       fo["cls"] = qname(md->getParent());
       if (md->isVirtual()) fo["virtual"] = true;
